@@ -465,7 +465,8 @@ class UniformPrior(BasePrior):
         :returns: \
             The gradient of the prior log-probability with respect to the model parameters.
         """
-        return self.grad
+        # (a copy: callers add the likelihood gradient to the returned array in place)
+        return self.grad.copy()
 
     def sample(self) -> ndarray:
         """
